@@ -35,7 +35,7 @@ table = ("### 0.5 Seeded changes (written by fresh sub-agents that saw only the 
          "Each entry lives in `seeded/<id>/` (`patch.diff`, `demo.py` = fails with the change / passes without, `meta.json` incl. what the integrator\n"
          "re-ran). The change is applied to a scratch copy of `/repo/lib` (`tools/seedtest.sh`, equivalent to `git -C /repo apply ... ; ./check ... ; git checkout`)\n"
          "and the property's quick check is run against it. **%d seeded changes: %d caught (%d as built, %d only after the specification / binding was strengthened because of the seed), %d still missed.**\n"
-         "A miss was never \"fixed\" by special-casing the seed: each strengthening adds an action, constant or dimension to the specification (named in the last column).\n\n"
+         "A miss was never \"fixed\" by special-casing the seed: each strengthening adds an action, constant or dimension to the specification (named in the last column). Two more seed writers (C05 literal rendering, C09 type processors) gave up after 30 minutes: every change they tried that broke the property was already caught by the existing tests. C55 was not seeded: the stale prebuilt binaries it compares against cannot be rebuilt here, so any change to a `*_cy.py` source shows up as a difference at once.\n\n"
          "| seed | what the change does | what the check prints on it | verdict |\n|---|---|---|---|\n" % (n, c, c - k, k, n - c)) + "\n".join(rows) + "\n\n"
 p = os.path.join(ROOT, "DESIGN.md")
 s = open(p).read()
